@@ -19,7 +19,7 @@
 #include "vi.h"
 #include "verif.h"
 
-#define MAXPAT	8
+#define MAXPAT	96
 #define POISON	777
 
 static sigjmp_buf jb;
